@@ -22,17 +22,23 @@ def run(ck):
         rows = rows[:1500]
     allh = edges + sims + rows
     out = os.path.join(ck.tmp, "c12_out.json")
-    ck.run_driver("./rtspsess", "^TestSequences$", {"VERIF_IN": ck.write_lines("c12_in.ndjson", allh), "VERIF_OUT": out}, timeout=3000)
-    res = ck.read_result(out)
-    if res["sequences"] != len(allh) and not res["mismatches"]:
-        raise Infra("driver ran %d of %d sequences" % (res["sequences"], len(allh)))
-    ck.cov["traces_validated_against_impl"] += res["sequences"]
-    ck.cov["requests"] = res["requests"]
+    inp = ck.write_lines("c12_in.ndjson", allh)
+    ck.cov["requests"] = 0
+    for transport in ("tcp", "ws"):
+        ck.run_driver("./rtspsess", "^TestSequences$", {"VERIF_IN": inp, "VERIF_OUT": out, "VERIF_TRANSPORT": transport}, timeout=3000)
+        res = ck.read_result(out)
+        if res["sequences"] != len(allh) and not res["mismatches"]:
+            raise Infra("driver ran %d of %d sequences (%s)" % (res["sequences"], len(allh), transport))
+        if transport == "ws" and res["over_websocket"] < len(allh) // 2 and not res["mismatches"]:
+            raise Infra("only %d of %d sequences ran over WebSocket" % (res["over_websocket"], len(allh)))
+        ck.cov["traces_validated_against_impl"] += res["sequences"]
+        ck.cov["requests"] += res["requests"]
+        ck.cov["sequences_over_" + transport] = res["over_websocket"] if transport == "ws" else res["sequences"]
+        ck.count(res["requests"], ("%s%d" % (transport, i) for i in range(res["distinct"])))
+        for m in res["mismatches"] or []:
+            key = "C12:%s:%s" % (m["kind"], " ".join(m["seq"].split()[:m["step"] + 1]))
+            ck.violation(key, "sequence [%s], request %d: %s: specification requires %s, server gives %s" % (m["seq"], m["step"] + 1, m["kind"], m["want"], m["got"]), m)
     ck.cov["edge_cover"] = len(edges)
-    ck.count(res["requests"], ("s%d" % i for i in range(res["distinct"])))
-    for m in res["mismatches"] or []:
-        key = "C12:%s:%s" % (m["kind"], " ".join(m["seq"].split()[:m["step"] + 1]))
-        ck.violation(key, "sequence [%s], request %d: %s: specification requires %s, server gives %s" % (m["seq"], m["step"] + 1, m["kind"], m["want"], m["got"]), m)
     # TEARDOWN of a multicast player releases its membership of the shared proxy (the session automaton's stream has no
     # multicast source; this leg publishes one)
     trm = os.path.join(ck.tmp, "mcast.ndjson")
@@ -50,12 +56,13 @@ def run(ck):
     ck.sample({"sequence": [(s["req"], s["exp"]) for s in edges[len(edges) // 2]]})
     ck.assumptions += ["answer classes: ok (2xx), 455, refuse (any status >= 400; 455 also accepted), any (the statement does not decide: after a refused SETUP, DESCRIBE after ANNOUNCE)",
                        "a missing response is decided by an OPTIONS barrier sent right after the request, not by waiting",
-                       "multicast transports are not exercised (no multicast network in the sandbox)"]
+                       "multicast transports are not exercised (no multicast network in the sandbox)",
+                       "over WebSocket the stream a DESCRIBE names is the path of the ws:// URL (by design): a sequence is mapped by opening the WebSocket on the path its DESCRIBE requests name; sequences naming both the live and the missing path run over TCP only; after an ANNOUNCE (which re-binds the session's path) a DESCRIBE over WebSocket is not decided"]
 
 
 META = {
-    "text": "RtspSession.tla is the session automaton of the statement (20 abstract states x 19 request kinds). TLC produces the complete edge cover (266 (state, request) pairs, each with a shortest prefix), all sequences up to length 3 (6.5k; quick replays a seeded 1500) and simulated sequences of length 12, each request annotated with the required answer class and data-plane obligations; every sequence is replayed on a real TCP connection to the in-process server while a live stream is being published.",
-    "note": "Trusted: TLC, RtspSession.tla as transcription of the statement, the independent strict RTSP/interleaved parser of harness/vclient. ws-rtsp and WSP transports ride on the same session code; they are exercised by C13/C11 drivers.",
+    "text": "RtspSession.tla is the session automaton of the statement (20 abstract states x 19 request kinds). TLC produces the complete edge cover (266 (state, request) pairs, each with a shortest prefix), all sequences up to length 3 (6.5k; quick replays a seeded 1500) and simulated sequences of length 12, each request annotated with the required answer class and data-plane obligations; every sequence is replayed on a real TCP connection and on an RTSP-over-WebSocket connection (strict parser: one message = one response or one frame) to the in-process server while a live stream with an audio track is being published.",
+    "note": "Trusted: TLC, RtspSession.tla as transcription of the statement, the independent strict RTSP/interleaved parser of harness/vclient. WSP wraps the same session requests in its control channel; it is exercised by the C11/C01/C13 drivers.",
     "technique": "TLA+ automaton of the RTSP session; TLC edge cover + exhaustive short sequences + simulation replayed on real connections with per-request comparison",
     "specs": ["rtsp", "fanout"],
 }
